@@ -337,7 +337,10 @@ where
         {
             let (first_word, consecutive_words) = if point < self.state.lower {
                 // Unlikely case (addition has wrapped).
-                (first_inverted_lower_word + Word::one(), Word::zero())
+                (
+                    first_inverted_lower_word.wrapping_add(&Word::one()),
+                    Word::zero(),
+                )
             } else {
                 // Likely case.
                 (first_inverted_lower_word, Word::max_value())
@@ -601,7 +604,10 @@ where
                 // We've transitioned from an inverted to a normal situation.
 
                 let (first_word, consecutive_words) = if new_lower < self.state.lower {
-                    (first_inverted_lower_word + Word::one(), Word::zero())
+                    (
+                        first_inverted_lower_word.wrapping_add(&Word::one()),
+                        Word::zero(),
+                    )
                 } else {
                     (first_inverted_lower_word, Word::max_value())
                 };
